@@ -11,6 +11,7 @@ stateless replay, with a visited-state cache and optional deviation bounds
 from __future__ import annotations
 
 import gc
+import os
 import sys
 import threading
 import traceback
@@ -21,7 +22,7 @@ from .report import HarnessError, progress
 
 READY, RUNNING, BLOCKED, PARKED, WAITEV, JOINING, DONE = "ready", "running", "blocked", "parked", "waitev", "joining", "done"
 
-WATCHDOG_S = 60.0
+WATCHDOG_S = 300.0  # generous: the machine may be heavily loaded; a hang is a harness error, not a verdict
 
 
 class _Abort(BaseException):
@@ -563,7 +564,8 @@ class Explorer:
         self.max_jumps = max_jumps
         self.jump_amounts = list(jump_amounts)
         self.horizon = horizon
-        self.max_exec = max_exec
+        # safety net against run-away configurations: a capped run is reported as capped (never as exhaustive)
+        self.max_exec = max_exec if max_exec is not None else int(os.environ.get("DSMC_MAX_EXEC", "60000"))
         self.seed = seed
         self.clock_mode = clock_mode
         self.has_extra = has_extra
